@@ -360,6 +360,13 @@ mut("C06", "relay-no-wait", "handlers/memcached/batched/relay.go", "\tgo r.monit
 mut("C13", "pooled-buffer-not-emptied", BC, "\tbuf := batcherPool.Get().(*bytes.Buffer)\n\tbuf.Reset()\n", "\tbuf := batcherPool.Get().(*bytes.Buffer)\n", "R13.16")
 mut("C06", "pooled-buffer-not-emptied", BC, "\tbuf := batcherPool.Get().(*bytes.Buffer)\n\tbuf.Reset()\n", "\tbuf := batcherPool.Get().(*bytes.Buffer)\n", "R6.14")
 var("C13", "batch-written-with-writeto", BC, "n, _ := c.rw.Write(buf.Bytes())", "n, _ := buf.WriteTo(c.rw)", "draining the buffer while writing is harmless as long as it is emptied when it is taken from the pool")
+mut("C18", "bucket-one-lower", "metrics/histograms.go", "\treturn uint64(pos + 1)\n", "\treturn uint64(pos)\n", "R18.15")
+mut("C18", "bucket-delta-quarter", "metrics/histograms.go", "delta := prevPowerOf4 / 3", "delta := prevPowerOf4 / 4", "R18.15")
+mut("C18", "bucket-small-limit-16", "metrics/histograms.go", "\tif n <= 15 {\n\t\treturn n\n\t}", "\tif n <= 16 {\n\t\treturn n\n\t}", "R18.15")
+var("C18", "bucket-small-limit-lt16", "metrics/histograms.go", "\tif n <= 15 {\n\t\treturn n\n\t}", "\tif n < 16 {\n\t\treturn n\n\t}", "same function of the value")
+mut("C18", "bucket-offset-rounded-up", "metrics/histograms.go", "offset := int((n - prevPowerOf4) / delta)", "offset := int((n - prevPowerOf4 + delta - 1) / delta)", "R18.15")
+mut("C18", "bucket-offset-shifted", "metrics/histograms.go", "offset := int((n - prevPowerOf4) / delta)", "offset := int((n - prevPowerOf4 - 1) / delta)", "R18.15")
+var("C18", "bucket-last-clamp-early", "metrics/histograms.go", "\tif pos >= numAtlasBuckets-1 {\n\t\treturn numAtlasBuckets - 1\n\t}", "\tif pos >= numAtlasBuckets-2 {\n\t\treturn numAtlasBuckets - 1\n\t}", "same function of the value")
 
 for prop, ms in sorted(M.items()):
     json.dump(ms, open(os.path.join(ROOT, "rendlint", "mutants", prop + ".json"), "w"), indent=1)
